@@ -439,6 +439,48 @@ def array(obj, dtype=None, *a, **k):
     return as_symnd(r)
 
 
+def loadtxt(fname, dtype=float, comments='#', delimiter=None, converters=None, skiprows=0, usecols=None, unpack=False, ndmin=0, max_rows=None, **k):
+    """np.loadtxt on a text handle of the SymFS whose numbers may be tokens: rows are read with readline (at most
+    max_rows, blank and comment lines skipped as numpy does), converted like np.array(..., dtype=float), and squeezed to
+    ndmin the way numpy does.  Anything else goes to numpy."""
+    if not hasattr(fname, 'readline') or converters is not None or unpack or k:
+        return as_symnd(_np.loadtxt(fname, dtype=dtype, comments=comments, delimiter=delimiter, converters=converters, skiprows=skiprows,
+                                    usecols=usecols, unpack=unpack, ndmin=ndmin, max_rows=max_rows, **k))
+    rows = []
+    for _ in range(skiprows):
+        fname.readline()
+    while max_rows is None or len(rows) < max_rows:
+        line = fname.readline()
+        if not line:
+            break
+        if isinstance(line, bytes):
+            line = line.decode('latin1')
+        if comments:
+            line = line.split(comments)[0]
+        line = line.strip()
+        if not line:
+            continue
+        cells = [c.strip() for c in (line.split(delimiter) if delimiter is not None else line.split())]
+        if usecols is not None:
+            cols = [usecols] if isinstance(usecols, builtins.int) else list(usecols)
+            cells = [cells[c] for c in cols]
+        rows.append(cells)
+    if rows and any(len(r) != len(rows[0]) for r in rows):
+        raise ValueError('the number of columns changed between rows')
+    out = array(rows, dtype=dtype) if rows else _np.empty((0, 0))
+    out = _np.asarray(out, dtype=object) if isinstance(out, _np.ndarray) and out.dtype == object else _np.asarray(out)
+    if out.ndim == 2 and ndmin < 2:
+        # numpy squeezes the axes of extent 1 down to ndmin dimensions
+        if out.shape[0] == 1 and out.ndim > ndmin:
+            out = out[0]
+        if out.ndim == 2 and out.shape[1] == 1:
+            out = out[:, 0]
+        if out.ndim == 1 and out.shape[0] == 1 and ndmin == 0:
+            out = out[0] if out.dtype == object else out.reshape(())
+            return out
+    return as_symnd(out)
+
+
 def linspace(start, stop, num=50, *a, **k):
     if core.is_sym(start) or core.is_sym(stop):
         n = builtins.int(num)
@@ -616,7 +658,7 @@ def hstack(seq, *a, **k):
 
 
 _OVERRIDES = {
-    'concatenate': concatenate, 'hstack': hstack, 'repeat': repeat, 'reshape': reshape, 'frombuffer': frombuffer, 'take': take,
+    'concatenate': concatenate, 'hstack': hstack, 'repeat': repeat, 'reshape': reshape, 'frombuffer': frombuffer, 'take': take, 'loadtxt': loadtxt,
     'fromfile': fromfile, 'save': save, 'savez': savez, 'savez_compressed': savez_compressed,
     'load': load, 'empty': empty, 'empty_like': empty_like, 'zeros': zeros, 'ones': ones,
     'zeros_like': zeros_like, 'ones_like': ones_like, 'min': nmin, 'max': nmax, 'amin': nmin,
